@@ -14,7 +14,7 @@ LEVEL = "model_checking"
 TECHNIQUE = "(a) breadth-first explicit-state search over constructor / encode / decode / discard histories over pairs and triples of command classes with a differential oracle (same operation alone); (b) preemption-bounded exhaustive enumeration of thread schedules at source-line granularity under a sys.settrace + semaphore-baton scheduler owning real threads"
 RULE = ("(a) pool of 10 classes chosen to collide (6/10/12/16-byte CDBs, inherited layout, constructors that raise after touching shared state, "
         "mutable arguments); operations new(X, 2 argument variants), new-invalid(X), X.unmarshall_cdb, X.marshall_cdb, repeat-marshal with the same "
-        "caller objects, deep copy of a live command (then modified), display helpers (print_cdb / print / repr) of a command, a caller-owned segment dictionary re-used after the caller changed its kind (also after a refused construction), first-use in 13 fresh processes (see C02), EXTENDED COPY segment kinds A, B, A in fresh processes (6 kinds x flag keys, both classes: bytes or refusal of A unchanged), the same battery of builds and decodes in 6 interpreters differing only in PYTHONHASHSEED, two commands over one caller-owned buffer with the first discarded and garbage-collected (WRITE, WRITE SAME, EXTENDED COPY inline data, ATA PASS-THROUGH 12/16 x all 256 ATA command codes x both directions), del; BFS with de-duplication on a digest of class-level state + live objects, all pairs to depth 4 (thorough 5) and all "
+        "caller objects, deep copy of a live command (then modified), display helpers (print_cdb / print / repr) of a command, a caller-owned segment dictionary re-used after the caller changed its kind (also after a refused construction), first-use in 13 fresh processes (see C02), every pool class and decoder 300 (thorough 1100 / 66000) times in a row, each repetition observing what the first did; EXTENDED COPY segment kinds A, B, A in fresh processes (6 kinds x flag keys, both classes: bytes or refusal of A unchanged), the same battery of builds and decodes in 6 interpreters differing only in PYTHONHASHSEED, two commands over one caller-owned buffer with the first discarded and garbage-collected (WRITE, WRITE SAME, EXTENDED COPY inline data, ATA PASS-THROUGH 12/16 x all 256 ATA command codes x both directions), del; BFS with de-duplication on a digest of class-level state + live objects, all pairs to depth 4 (thorough 5) and all "
         "triples to depth 3 (thorough 4); in every state every live object and every class's codec is compared with what the same call yields "
         "alone; decode histories A,B,A over every ordered pair of 20 response kinds in a fresh process (result for A identical before and after B). (b) 2 threads (thorough: also 3), each 'c=X(..); bytes(c.cdb); X.unmarshall_cdb; X.marshall_cdb; len(c.datain)', every ordered "
         "pair of pool classes, plus decoder threads (standard INQUIRY, VPD 83h, MODE SENSE(10), REPORT LUNS, RTPG, READ FULL STATUS, READ ELEMENT STATUS, sense) in all ordered pairs, all schedules with at most 1 preemption at every traced source line of the library (thorough: also all schedules with at most 2 preemptions at function-entry granularity for the pairs over 5 classes of different CDB lengths, and 2 preemptions at "
@@ -93,6 +93,7 @@ def partitions(tier):
     parts += [["first", i] for i in range(c02.N_FIRST)]
     parts += [["discard"], ["hashseed"]]
     parts += [["segstar", ver, kind, ek] for ver in (4, 5) for kind in SEG_KINDS for ek in ("", "dc", "cat")]
+    parts += [["count", n, count_for(n, tier)] for n in POOL + list(DECODER_CASES)]
     decs = list(THREAD_DECODERS)
     dq = decs if tier != "quick" else ["dec:inquiry_std", "dec:vpd83", "dec:rtpg", "dec:sense", "dec:prfull"]
     for a in dq:
@@ -551,6 +552,24 @@ def run_hashseed():
     return out, len(ref) * len(res)
 
 
+def count_for(name, tier):
+    if tier == "quick":
+        return 300
+    return 66000 if name in ("Read10", "TestUnitReady", "Inquiry", "dec:inquiry_std", "dec:reportluns", "dec:prkeys", "dec:sense") else 1100
+
+
+def run_count(name, n):
+    """the same build (constructor, decode of its CDB, re-encode) or the same decode N times in a row: every repetition observes what
+    the first one observed (N crosses 256; thorough: 1024, and 65536 for seven cheap bodies)"""
+    body = thread_body(name, 0)
+    first = body()
+    for i in range(1, n):
+        again = body()
+        if again != first:
+            return [("count_differs/%s" % name, "%s: repetition #%d of %d identical operations observes something else than the first" % (name, i + 1, n))]
+    return []
+
+
 SEG_KINDS = (0x00, 0x01, 0x02, 0x0B, 0x0C, 0x0D)
 
 
@@ -641,6 +660,8 @@ def run_discard(case):
 
 
 def run_case(case):
+    if case[0] == "count":
+        return run_count(case[1], case[2])
     if case[0] == "segstar":
         return run_segstar(*case[1:])
     if case[0] == "hashseed":
@@ -681,6 +702,16 @@ MAXTASKS = 1      # fresh forked worker per partition (the decode histories need
 def run_partition(part, tier, seed):
     acc = Acc(seed)
     b = bounds(tier)
+    if part[0] == "count":
+        case = list(part)
+        acc.case(case, nontrivial=True, key=tuple(case))
+        v = run_count(part[1], part[2])
+        acc.transitions += part[2]
+        acc.traces += 1
+        for k, w in v:
+            acc.violation(k, w, case)
+        acc.outcome((tuple(case), tuple(k for k, _ in v)))
+        return acc
     if part[0] == "segstar":
         case = list(part)
         acc.case(case, nontrivial=True, key=tuple(case))
